@@ -113,7 +113,7 @@ def to_ops(beh):
                     so[x["i"] - 1] = x["ok"]
             ops.append(dict(op="start", so=so))
         elif e == "tick":
-            ops.append(dict(op="tick"))
+            ops.append(dict(op="tick", want=ev["res"]))      # pacing hint only
         elif e == "rel":
             ops.append(dict(op="rel", out=ev["out"], pts=ev["pts"]))
         elif e == "consret":
@@ -181,7 +181,7 @@ def judge(c, binp, scripts, label):
     sf = os.path.join(c.work, "scripts_%s.ndjson" % label)
     of = os.path.join(c.work, "observed_%s.ndjson" % label)
     vlib.write_ndjson(sf, scripts)
-    c.run([binp, "run", sf, of, "48"], timeout=900)
+    c.run([binp, "run", sf, of, "400"], timeout=900)
     obs = {o["id"]: o for o in vlib.read_ndjson(of)}
     if len(obs) != len(scripts):
         raise vlib.Inconclusive("driver returned %d observations for %d scripts" % (len(obs), len(scripts)))
@@ -218,6 +218,7 @@ KNOWN = {
 def run(c):
     q = c.quick()
     # ------------------------------------------------------------------ 1. design
+    designs = []
     if not c.replay:
         T = ["TicksWhileRunning"]
         NF = ["NoLifecycleFailure", "TicksWhileRunning"]
@@ -227,14 +228,17 @@ def run(c):
                    ("scrape1", mc_cfg("OutcomesMid", [1], 2, 3, 18, False, NF)),
                    ("scrape2", mc_cfg("OutcomesSmall", [2], 1, 2, 21, False, NF)),
                    ("scrape3", mc_cfg("OutcomesSmall", [3], 1, 1, 20, False, ["NoLifecycleFailure"]))]
-        from concurrent.futures import ThreadPoolExecutor
-        with ThreadPoolExecutor(2) as ex:
-            futs = [(name, ex.submit(c.tlc_must_pass, SPEC, "ScraperControllerMC", cfg_text=cfg, timeout=c.pick(120, 1200),
-                                     label="design_" + name, heap="6g", workers=max(2, vlib.NCPU // 2))) for name, cfg in designs]
-            for name, f in futs:
-                r = f.result()
-                c.log("design %s: %d states, %d distinct, depth %d, %.1fs" % (name, r.generated, r.distinct, r.depth, r.wall))
-    binp = c.go_build("scraperctl", pkg="./cmd")
+    from concurrent.futures import ThreadPoolExecutor
+    ex = ThreadPoolExecutor(8)      # TLC runs that do not depend on each other go on side by side
+    dfuts = []
+    if not c.replay:
+        sem = __import__("threading").Semaphore(2)
+
+        def design(name, cfg):
+            with sem:
+                return c.tlc_must_pass(SPEC, "ScraperControllerMC", cfg_text=cfg, timeout=c.pick(120, 1200), label="design_" + name,
+                                       heap="6g", workers=max(2, vlib.NCPU // 2 - 2))
+        dfuts = [(name, ex.submit(design, name, cfg)) for name, cfg in designs]
 
     # ------------------------------------------------------------------ 2. scripts
     if c.replay:
@@ -244,7 +248,7 @@ def run(c):
         else:
             scripts = [dict(rp["script"], id=1)]
     else:
-        plans = [  # (label, cfg, simulate, expected minimum)
+        plans = [  # (label, generator configuration, number of random behaviours or None = exhaustive)
             ("tiny", gen_cfg("OutcomesSmall", [1], [False], [False], 1, 2, False, False), None),
             ("life", gen_cfg("OutcomesOne", [1, 2], [False], [True, False], 0, 1, True, True), None),
             ("sim", gen_cfg("OutcomesFull", [1, 2, 3], [True, False], [True, False], 3, 3, False, True), c.pick(2500, 30000)),
@@ -252,17 +256,27 @@ def run(c):
         ]
         if not q:
             plans.append(("n1", gen_cfg("OutcomesSmall", [1], [False], [False], 2, 2, False, False), None))
-        behs = []
-        for label, cfg, sim in plans:
+
+        def gen(label, cfg, sim):
             kw = dict(simulate="num=%d" % sim, depth=120, seed=c.seed) if sim else {}
-            r = c.tlc(SPEC, "ScraperControllerGen", cfg_text=cfg, workers=1, timeout=600, count=False, label="gen_" + label,
-                      heap="8g", **kw)
+            return c.tlc(SPEC, "ScraperControllerGen", cfg_text=cfg, workers=1, timeout=900, count=False, label="gen_" + label,
+                         heap="6g", **kw)
+        gfuts = [(label, ex.submit(gen, label, cfg, sim)) for label, cfg, sim in plans]
+    binp = c.go_build("scraperctl", pkg="./cmd")
+    if not c.replay:
+        behs = []
+        for label, f in gfuts:
+            r = f.result()
             if r.timed_out or r.error or not r.printed:
                 raise vlib.Inconclusive("generator %s failed: %s %s" % (label, r.error, r.out[-1500:]))
             c.log("generator %s: %d histories" % (label, len(r.printed)))
             behs += r.printed
         scripts = make_scripts(c, behs, 1)
         c.log("%d distinct scripts" % len(scripts))
+    for name, f in dfuts:       # the real-code runs below are not disturbed by the design runs
+        r = f.result()
+        c.log("design %s: %d states, %d distinct, depth %d, %.1fs" % (name, r.generated, r.distinct, r.depth, r.wall))
+    ex.shutdown()
 
     # ------------------------------------------------------------------ 3. run + judge
     nontrivial = 0
@@ -292,7 +306,7 @@ def run(c):
             for v in flagged[i][:2]:
                 at, clauses = v["at"], sorted(v["clauses"])
                 sig = next((k for k, f in KNOWN.items() if f(o, at, clauses)), None)
-                if sig is None and reported >= 8:
+                if reported >= 6 and c.match_finding(sig) is None:
                     continue
                 what = "clause %s of the statement does not hold at event %d %s of what the real controller did; script: %s; events: %s" % (
                     "+".join(clauses), at, json.dumps(slim(o["ev"][at - 1])), fmt(s), json.dumps([slim(e) for e in o["ev"][:at]]))
@@ -314,7 +328,7 @@ def run(c):
         c.extra["observations_flagged_by_monitor"] = len(flagged)
         c.extra["scripts_not_followed_to_the_end"] = unfollowed
         c.log("%d scripts run: monitor flagged %d, model rejected %d, %d not followed to the end" % (len(scripts), len(flagged), len(rejected), unfollowed))
-        if not c.replay and unfollowed > len(scripts) // 10:
+        if not c.replay and unfollowed > len(scripts) // 10 and not c.violations:
             raise vlib.Inconclusive("%d of %d scripts could not be followed to their end" % (unfollowed, len(scripts)))
         mid = scripts[len(scripts) // 2]
         c.sample(dict(kind="script", script=fmt(mid)))
